@@ -3,8 +3,8 @@
    hdr <codec01> <pbit01> <csub-cps> <n> (<k-cps> <v-cps>)*
         -> <st: 200|code> <ct: ok|missing|bad> <gs: absent|invalid|valid:k> <msg: none|h:cps>
            <details: absent|ok|undecodable> <md: ok|binascii|unicode>
-   run <c|o> <cs01> <ss01> <prog: - | RI,RM,..> <codec01> <csub-cps> <nbatches>
-       { <trig: B|k> <nevents> { H <end01> <pbit01> <n> (<k> <v>)* | D <end01> | T <pbit01> <n> (<k> <v>)*
+   run <c|o> <cs01> <ss01> <prog: - | RI,RM,..> <codec01> <csub-cps> <lis: 3 bits init,msg,trail> <nbatches>
+       { <trig: B|L|k> <nevents> { H <end01> <pbit01> <n> (<k> <v>)* | D <end01> | T <pbit01> <n> (<k> <v>)*
                                 | R | G | L } }
         -> <obs> | <defect: - or d2c,d2g,..> | <spec: 0|1>
      obs = ok <n> | grpc <status> <client|none|h:cps> <absent|ok|undecodable> | terminated | protocol
@@ -48,7 +48,7 @@ let rec parse_batches n ws acc =
   if n = 0 then (List.rev acc, ws) else
   match ws with
   | tr :: cnt :: r ->
-    let trig = if tr = "B" then TB else TS (nat_of_int (int_of_string tr)) in
+    let trig = if tr = "B" then TB else if tr = "L" then TL else TS (nat_of_int (int_of_string tr)) in
     let (evs, r') = parse_events (int_of_string cnt) r [] in
     parse_batches (n - 1) r' ({ cb_trig = trig; cb_events = evs } :: acc)
   | _ -> failwith "batch"
@@ -68,18 +68,19 @@ let handle = function
     let md = (match decode_metadata hs with
         | Ok _ -> "ok" | Err DBinascii -> "binascii" | Err DUnicode -> "unicode") in
     String.concat " " [st; ct; gs; msg; det; md]
-  | "run" :: variant :: cs :: ss :: prog :: codec :: csub :: nb :: rest ->
+  | "run" :: variant :: cs :: ss :: prog :: codec :: csub :: lbits :: nb :: rest ->
+    let lis = { l_init = lbits.[0] = '1'; l_msg = lbits.[1] = '1'; l_trail = lbits.[2] = '1' } in
     let ops = if prog = "-" then [] else List.map parse_op (String.split_on_char ',' prog) in
     let k = if variant = "c" then Call (bool_of_word cs, bool_of_word ss)
       else Open (bool_of_word cs, bool_of_word ss, ops) in
     let (bs, _) = parse_batches (int_of_string nb) rest [] in
     let csub = cps_of_string csub in
-    let o = observe csub (bool_of_word codec) k bs in
+    let o = observe csub (bool_of_word codec) lis k bs in
     let abs_ = alpha csub bs in
     let ds = List.filter_map (fun (n, f) -> if f k abs_ then Some n else None)
         [("d2c", d2c); ("d2d", d2d); ("d2g", d2g)] in
     show_obs o ^ " | " ^ (if ds = [] then "-" else String.concat "," ds) ^ " | " ^
-    word_of_bool (spec_allows abs_ (outcome k abs_))
+    word_of_bool (spec_allows abs_ (outcome lis k abs_))
   | _ -> failwith "unknown command"
 
 let () = main_loop handle
